@@ -253,6 +253,17 @@ func (c *Chan[T]) Close() {
 	me.VC[me.ID]++
 }
 
+// CloseFromTimer closes the channel from a timer callback (no closing task, no yield).
+func (c *Chan[T]) CloseFromTimer() {
+	if c == nil {
+		return
+	}
+	if s := sched.Cur; s != nil {
+		c.sync(s)
+	}
+	c.closed = true
+}
+
 // Len is len(c); Cap is cap(c).
 func (c *Chan[T]) Len() int { return len(c.buf) }
 
